@@ -14,3 +14,7 @@ pub assume_specification<T, F: FnOnce() -> Option<T>> [Option::<T>::or_else] (o:
 ;
 pub assume_specification<T> [Option::<T>::replace] (o: &mut Option<T>, v: T) -> (r: Option<T>)
     ensures r == *old(o), *final(o) == Some(v);
+pub assume_specification<T, E, F, O: FnOnce(E) -> core::result::Result<T, F>> [core::result::Result::<T, E>::or_else] (r: core::result::Result<T, E>, op: O) -> (res: core::result::Result<T, F>)
+    requires r matches Err(e) ==> op.requires((e,)),
+    ensures r matches Ok(v) ==> res == core::result::Result::<T, F>::Ok(v),
+            r matches Err(e) ==> op.ensures((e,), res);
